@@ -1206,6 +1206,34 @@ def directed_plans(prop, profile):
                            "via": "all"}, "batch": [0, 1, 2, 3, 4],
                  "oracle": []}],
         "timeout": 900.0}))
+  if profile == "ecdsa" and prop in ("C17",):
+    # CR50-shaped nonces on the smallest 32-bit-aligned curves, judged before
+    # and after one signature of every larger curve went through the same
+    # singleton check: anything sized by 'the largest curve seen so far' must
+    # not leak into the smaller one (always present, whatever the random pools
+    # of the batch hold)
+    rr = random.Random(4321)
+    for small in ("secp224r1", "secp256r1"):
+      c = A.curve_by_name(small)
+      pool = A.Issuer(rr, c, "I0").u2f(rr, 2) + \
+          A.Issuer(rr, c, "I1").u2f(rr, 2, negative=True)
+      nu = len(pool)
+      for k, big in enumerate(("secp384r1", "brainpoolP512r1", "secp521r1")):
+        pool += A.Issuer(rr, A.curve_by_name(big), "B%d" % k).healthy(rr, 1)
+      u2f = list(range(nu))
+      spec = {"name": "CheckCr50U2f", "how": "registry", "via": "all"}
+      ops = [{"op": "check", "check": spec, "batch": u2f, "oracle": []}]
+      for j in range(nu, len(pool)):
+        ops.append({"op": "check", "check": spec, "batch": [j], "oracle": []})
+        ops.append({"op": "check", "check": spec, "batch": u2f,
+                    "oracle": [{"relation": "same", "order": u2f}]})
+      ops.append({"op": "check", "check": spec,
+                  "batch": list(range(len(pool) - 1, -1, -1)), "oracle": []})
+      out.append(("directed-cr50-after-larger-curves-" + small, {
+          "engine": "A", "kind": "ecdsa", "profile": "ecdsa", "focus": prop,
+          "knobs": {"clock_seed": 11, "max_diff": 256, "denylist": {}},
+          "pool": pool, "initial_annotations": {}, "ops": ops,
+          "timeout": 900.0}))
   if profile == "ec" and prop in ("C17",):
     # F5b: a pair beyond max_diff, alone and with healthy keys added (the
     # all-checks call builds a table that grows with the batch)
